@@ -2,7 +2,7 @@
 Cases: (bip append (T1 .. Tn Out) SS)."""
 import itertools
 from lib.sx import *
-from lib import obs, pyspec
+from lib import obs, pyspec, refunify
 from gen.universe import X, Y, Z
 
 OUT = var(20, "$Out")
@@ -36,7 +36,8 @@ def cases(tier, rng):
             if tier == "thorough" or rng.random() < 0.45:
                 out.append(("(bip %s (%s %s %s) %s)" % (name, t1, t2, OUT, ss), "two"))
     n = 2500 if tier == "quick" else 40000
-    outs = [OUT, OUT, OUT, lst([a, q]), lst([a], Y), lst([Y, Z]), lst([a, lst([b, c])]), EMPTY, a, ANON]
+    outs = [OUT, OUT, OUT, lst([a, q]), lst([a], Y), lst([Y, Z]), lst([a, lst([b, c])]), EMPTY, a, ANON,
+            lst([a], ANON), lst([Y], Z), lst([a, b, c], Y), lst([Y, Z], ANON), lst([Y], ANON)]
     for _ in range(n):
         d = rng.choice(SSS)
         k = rng.randint(1, 4)
@@ -57,7 +58,8 @@ RULE = ("append with 1 input (all of 23 inputs), 2 inputs (a sample of all pairs
         "lists with bound / unbound / $_ tails, bound and unbound variables, a function term. Oracle (python twin of "
         "Spec.SpecLists.Contrib) on the implementation's own result whenever every input has a contribution and the output "
         "argument is a fresh variable: it is bound to the list holding exactly the concatenated contributions and no other "
-        "binding changes. Non-trivial = some input is a list with a bound tail or has a list-valued element.")
+        "binding changes; when the output argument is a term (closed and open lists, also with $_ tails, [], an atom, $_), append "
+        "succeeds exactly when a reference unifier unifies that term with the concatenation. Non-trivial = some input is a list with a bound tail or has a list-valued element.")
 
 def nontrivial(case, tag, result):
     return ("(v 4 " in case or "(v 5 " in case) and "some" in result
@@ -66,6 +68,31 @@ REL_STATS = {}
 def relations(cases, impl):
     REL_STATS.clear(); REL_STATS.update(oracle_checks=0, outside_spec=0)
     for (case, tag), (out, res) in zip(cases, impl):
+        if tag == "random-bound-out":
+            # the output argument is a term or bound already: append must succeed exactly when that term unifies
+            # with the list of the concatenated contributions (reference unifier, success/failure only)
+            cs = parse(case)
+            ins, o = cs[2][:-1], cs[2][-1]
+            ent0 = [None if e == "-" else e for e in cs[3][1:]]
+            contribs = [pyspec.contrib(ent0, t) for t in ins]
+            if any(x is None for x in contribs) or any(isinstance(t, list) and t and t[0] == "fn" for t in ins): continue
+            exp = pyspec.make_list([y for x in contribs for y in x])
+            try:
+                sref = {}
+                okp = all(refunify.runify(("v", i), refunify.to_r(e), sref) == refunify.YES for i, e in enumerate(ent0) if e is not None)
+                if not okp: continue
+                r = refunify.runify(refunify.to_r(o), refunify.to_r(exp), sref)
+            except refunify.Bad:
+                continue
+            if r == refunify.OCCURS: continue
+            REL_STATS["bound_out_checks"] = REL_STATS.get("bound_out_checks", 0) + 1
+            p = obs.parse_result(res)
+            if p[0] not in ("some", "none") or (p[0] == "some") != (r == refunify.YES):
+                yield dict(case=case, tag=tag, implementation=dict(result=res),
+                           why="output argument given: append must %s, since the given term %s with the list of the concatenated contributions"
+                               % (("succeed", "unifies") if r == refunify.YES else ("fail", "does not unify")),
+                           specification=dict(expected_output=pyspec.text(exp)))
+            continue
         if tag not in ("one", "two", "random"): continue
         cs = parse(case)
         ins = cs[2][:-1]
